@@ -79,12 +79,12 @@ extern "C" ssize_t writev(int fd,const struct iovec *iov,int cnt)
 	size_t total=0;
 	for(int i=0;i<cnt;i++) total+=iov[i].iov_len;
 	sched_t it; it.k='f'; it.n=0;
+	if(total==0) return real(fd,iov,cnt);
 	{
 		std::lock_guard<std::mutex> g(g_mx);
 		st_calls++;
 		if(g_sched_pos < g_case.sched.size()) it=g_case.sched[g_sched_pos++];
 	}
-	if(total==0) return real(fd,iov,cnt);
 	if(it.k=='w') {
 		int fl=fcntl(fd,F_GETFL);
 		if(fl>=0 && (fl & O_NONBLOCK)) { std::lock_guard<std::mutex> g(g_mx); st_wb++; errno=EAGAIN; return -1; }
@@ -230,9 +230,9 @@ struct runner : public booster::callable<void(cppcms::http::context::completion_
 			case 'T': {
 				cache().store_page(o.s1);
 				std::string got;
-				bool z=false;
-				bool ok=cache().fetch_frame("_U:"+o.s1,got,true);
-				if(!ok) { ok=cache().fetch_frame("_Z:"+o.s1,got,true); z=ok; }
+				// store_page files the page under "_Z:" when fetch_page found need_gzip() true; out() then set Content-Encoding
+				bool z = resp().get_header("Content-Encoding")=="gzip";
+				bool ok=cache().fetch_frame((z?"_Z:":"_U:")+o.s1,got,true);
 				std::lock_guard<std::mutex> g(g_mx);
 				g_cache_have=ok; g_cache_copy=got;
 				if(z) note+= note.empty() ? "zkey" : ";zkey";
@@ -537,6 +537,8 @@ static std::string run_case(std::vector<std::string> const &w)
 	std::string wire; bool timeout=false, shut=false; deframed d; std::string recs;
 	bool is_http = c.proto.compare(0,4,"http")==0;
 	if(!send_all(fd,req)) { g_sched_on.store(false); ::close(fd); return "send-failed"; }
+	// no further request will follow: a keep-alive server then closes after the response instead of waiting
+	if(is_http) { ::shutdown(fd,SHUT_WR); shut=true; }
 	char buf[65536];
 	for(;;) {
 		struct pollfd p; p.fd=fd; p.events=POLLIN; p.revents=0;
